@@ -3,6 +3,7 @@
 """Handy utilities for creating surfaces."""
 
 from math import pi, sqrt, atan2
+from itertools import permutations, product
 import inspect
 import os
 from os.path import dirname, realpath, join
@@ -227,28 +228,26 @@ def edge_curves(*curves, **kwargs):
             for j in range(i+1,4):
                 Curve.make_splines_compatible(mycurves[i], mycurves[j])
 
-        if not (np.allclose(mycurves[0][-1], mycurves[1][0], rtol=rtol, atol=atol) and
-                np.allclose(mycurves[1][-1], mycurves[2][0], rtol=rtol, atol=atol) and
-                np.allclose(mycurves[2][-1], mycurves[3][0], rtol=rtol, atol=atol) and
-                np.allclose(mycurves[3][-1], mycurves[0][0], rtol=rtol, atol=atol)):
-            reorder = [mycurves[0]]
-            del mycurves[0]
-            for j in range(3):
-                found_match = False
-                for i in range(len(mycurves)):
-                    if(np.allclose(reorder[j][-1], mycurves[i][0], rtol=rtol, atol=atol)):
-                        reorder.append(mycurves[i])
-                        del mycurves[i]
-                        found_match = True
+        def closes(ends):
+            return all(np.allclose(ends[k][1], ends[(k+1) % 4][0], rtol=rtol, atol=atol) for k in range(4))
+
+        if not closes([(c[0], c[-1]) for c in mycurves]):
+            # keep the first curve and search the orders and directions of the other three for a closed loop
+            # (all of them: with coinciding corners a greedy continuation can walk into a dead end)
+            arrangement = None
+            for perm in permutations(range(1, 4)):
+                for flips in product((False, True), repeat=3):
+                    ends = [(mycurves[0][0], mycurves[0][-1])]
+                    ends += [(mycurves[i][-1], mycurves[i][0]) if f else (mycurves[i][0], mycurves[i][-1])
+                             for i, f in zip(perm, flips)]
+                    if closes(ends):
+                        arrangement = (perm, flips)
                         break
-                    elif(np.allclose(reorder[j][-1], mycurves[i][-1], rtol=rtol, atol=atol)):
-                        reorder.append(mycurves[i].reverse())
-                        del mycurves[i]
-                        found_match = True
-                        break
-                if not found_match:
-                    raise RuntimeError('Curves do not form a closed loop (end-points do not match)')
-            mycurves = reorder
+                if arrangement is not None:
+                    break
+            if arrangement is None:
+                raise RuntimeError('Curves do not form a closed loop (end-points do not match)')
+            mycurves = [mycurves[0]] + [mycurves[i].reverse() if f else mycurves[i] for i, f in zip(*arrangement)]
         if type == 'coons':
             return coons_patch(*mycurves)
         elif type == 'poisson':
